@@ -124,15 +124,26 @@ def job(j):
             lat = bool(j['latitude'])
             keep = pts.copy()
             x = angles_to_x(pts, latitude=lat)
+            xkeep = x.copy()
             back = x_to_angles(x, latitude=lat)
-            return {'x': [fls(r) for r in x], 'back': [fls(r) for r in back],
-                    'input_unchanged': bool(np.array_equal(keep, pts))}
+            x_unchanged = bool(np.array_equal(xkeep, x))
+            back2 = x_to_angles(x, latitude=lat)     # same array again: must give the same answer
+            return {'x': [fls(r) for r in xkeep], 'back': [fls(r) for r in back],
+                    'input_unchanged': bool(np.array_equal(keep, pts)), 'x_unchanged': x_unchanged,
+                    'x_after': [fls(r) for r in x[:2]],
+                    'second_call_same': bool(np.array_equal(back, back2, equal_nan=True))}
         if k == 'x2a':
             x = np.array(j['x'], dtype='d').reshape(-1, 3)
             lat = bool(j['latitude'])
+            xkeep = x.copy()
             a = x_to_angles(x, latitude=lat)
+            x_unchanged = bool(np.array_equal(xkeep, x))
+            a2 = x_to_angles(x, latitude=lat)        # same array again
+            akeep = a.copy()
             xb = angles_to_x(a, latitude=lat)
-            return {'a': [fls(r) for r in a], 'back': [fls(r) for r in xb]}
+            return {'a': [fls(r) for r in akeep], 'back': [fls(r) for r in xb], 'x_unchanged': x_unchanged,
+                    'x_after': [fls(r) for r in x[:2]], 'angles_unchanged': bool(np.array_equal(akeep, a)),
+                    'second_call_same': bool(np.array_equal(akeep, a2, equal_nan=True))}
         return {'err': 'BadJob'}
     except Exception as e:  # noqa: BLE001 - the error class is the observation
         return err(e)
